@@ -423,6 +423,12 @@ func origin(v ssa.Value) ssa.Value {
 				continue
 			}
 			return v
+		case *ssa.Parameter:
+			if b, ok := paramBinding[x]; ok && b != nil && b != v {
+				v = b
+				continue
+			}
+			return v
 		default:
 			return v
 		}
@@ -549,6 +555,38 @@ func retValue(ret *ssa.Return, i int) ssa.Value {
 	for k := len(b.Instrs) - 1; k >= 0; k-- {
 		if st, ok := b.Instrs[k].(*ssa.Store); ok && st.Addr == a {
 			return st.Val
+		}
+	}
+	return v
+}
+
+// originDeep is origin() that also looks through the parameters of a helper with a single call
+// site (the parameter is the argument of that call), so that a value keeps its identity when a
+// block is extracted into a private helper.
+func originDeep(v ssa.Value) ssa.Value {
+	for i := 0; i < 6; i++ {
+		v = origin(v)
+		par, ok := v.(*ssa.Parameter)
+		if !ok {
+			return v
+		}
+		fn := par.Parent()
+		if fn == nil {
+			return v
+		}
+		site := uniqueCallSite(fn)
+		if site == nil {
+			return v
+		}
+		moved := false
+		for k, q := range fn.Params {
+			if q == par && k < len(site.Call.Args) {
+				v = site.Call.Args[k]
+				moved = true
+			}
+		}
+		if !moved {
+			return v
 		}
 	}
 	return v
